@@ -1,4 +1,10 @@
-"""Engine E: sibling / dispatch / argument-role agreement (DESIGN 4.4)."""
+"""Engine E: sibling / dispatch / argument-role agreement (DESIGN 4.4).
+
+Soundness audit (every VIOLATED verdict / every fact a caller may turn into one carries an `# AUDIT:` comment with the
+assumptions it rests on and how they are checked).  Three-valued throughout: what the engine does not model (star / double-star
+arguments, callees with *args / **kwargs / keyword-only / positional-only parameters, signature-changing decorators, renamed
+parameters, tests that are not the flag, arms that are not one call) is UNDECIDED, never VIOLATED.
+"""
 from __future__ import annotations
 
 import ast
@@ -7,8 +13,12 @@ import re
 from .core import src, AnalysisError, parent
 
 
+# ------------------------------------------------------------------------------------------------ binding of actuals to formals
 def bind_call(call: ast.Call, formals: list[str]):
-    """-> dict formal -> actual node (positional then keyword); None if arity does not fit"""
+    """-> dict formal -> actual node (positional then keyword); None when the call was NOT BOUND.
+    AUDIT: None is not the fact "the call raises TypeError": it is returned both for a misfit (too many positional arguments, a
+    keyword that is no formal, a formal bound twice) and for argument lists the binder does not follow (`*seq`, `**map`).  A caller
+    that wants to tell the two apart uses `bind_status`, which also looks at the callee's definition when it is given."""
     out = {}
     if len(call.args) > len(formals):
         return None
@@ -23,30 +33,148 @@ def bind_call(call: ast.Call, formals: list[str]):
     return out
 
 
-def check_roles(chk, rel, func, call: ast.Call, formals: list[str], table: dict, const_recv: str | None = None):
+# decorators known to leave the signature of the decorated function as written (pyccel / numba / functools)
+_SIGNATURE_PRESERVING = {"types", "pure", "stack_array", "inline", "allow_negative_index", "njit", "jit", "vectorize", "lru_cache", "cache",
+                         "wraps", "staticmethod", "classmethod", "abstractmethod", "export", "template", "elemental", "private", "sympy", "bypass", "python"}
+
+
+def signature_gaps(callee) -> list[str]:
+    """what makes the list `[a.arg for a in callee.args.args]` an incomplete description of how `callee` binds its arguments"""
+    gaps = []
+    a = callee.args
+    if a.vararg is not None:
+        gaps.append(f"`*{a.vararg.arg}` takes any number of positional arguments")
+    if a.kwarg is not None:
+        gaps.append(f"`**{a.kwarg.arg}` takes any keyword")
+    if a.kwonlyargs:
+        gaps.append(f"keyword-only parameters {[x.arg for x in a.kwonlyargs]}")
+    if getattr(a, "posonlyargs", None):
+        gaps.append(f"positional-only parameters {[x.arg for x in a.posonlyargs]}")
+    for d in callee.decorator_list:
+        f = d.func if isinstance(d, ast.Call) else d
+        if src(f).split(".")[-1] not in _SIGNATURE_PRESERVING:
+            gaps.append(f"decorator `@{src(f)}` may replace the signature")
+    return gaps
+
+
+def required_formals(callee) -> list[str]:
+    args = callee.args.args
+    nd = len(callee.args.defaults)
+    return [a.arg for a in (args[:len(args) - nd] if nd else args)]
+
+
+def bind_status(call: ast.Call, formals: list[str], callee=None):
+    """three-valued binding -> (status, binding or None, why)
+       'bound'   : every actual binds the formal given in the dict
+       'misfit'  : the call as written raises TypeError whatever the values are
+       'unknown' : not followed
+    AUDIT of 'misfit': true iff (1) every actual is written out (no `*seq` / `**map`: their length / keys are values); (2) `formals`
+    is the COMPLETE list of ways the callee accepts arguments: no *args (excess positionals), no **kwargs / keyword-only parameters
+    (keywords outside the list), no positional-only parameters, no decorator that may replace the signature.  (2) is checked on
+    `callee` when given; without it (2) is the caller's contract and `established` in the third component says so."""
+    if any(isinstance(a, ast.Starred) for a in call.args) or any(k.arg is None for k in call.keywords):
+        return "unknown", None, "arguments are handed over by * / ** expansion: how many there are and which parameter each binds is not followed"
+    if callee is not None:
+        own = [a.arg for a in callee.args.args]
+        if own != list(formals) and own[1:] != list(formals):
+            return "unknown", None, f"the parameter list {list(formals)} is not that of the definition of `{callee.name}` ({own})"
+        gaps = signature_gaps(callee)
+        if gaps:
+            return "unknown", None, f"`{callee.name}`: {gaps[0]}: binding of the actuals not followed"
+    if len(call.args) > len(formals):
+        return "misfit", None, f"{len(call.args)} positional arguments for {len(formals)} parameters"
+    out = dict(zip(formals, call.args))
+    for k in call.keywords:
+        if k.arg not in formals:
+            return "misfit", None, f"keyword `{k.arg}` is no parameter ({list(formals)})"
+        if k.arg in out:
+            return "misfit", None, f"parameter `{k.arg}` receives two arguments"
+        out[k.arg] = k.value
+    return "bound", out, ""
+
+
+def _find_callee(chk, call: ast.Call, formals):
+    """the definition(s) the caller took `formals` from: functions named like the callee, in the modules loaded so far, whose plain
+    parameter list is `formals` (with or without a leading self) -> list of FunctionDef"""
+    name = call.func.id if isinstance(call.func, ast.Name) else call.func.attr if isinstance(call.func, ast.Attribute) else None
+    if name is None:
+        return []
+    out = []
+    try:
+        mods = list(chk.repo._mods.values())
+    except AttributeError:
+        return []
+    for m in mods:
+        for q, f in m._index.items():
+            if isinstance(f, (ast.FunctionDef, ast.AsyncFunctionDef)) and f.name == name:
+                own = [a.arg for a in f.args.args]
+                if own == list(formals) or own[1:] == list(formals):
+                    out.append(f)
+    return out
+
+
+def check_roles(chk, rel, func, call: ast.Call, formals: list[str], table: dict, const_recv: str | None = None, callee=None):
     """every actual whose role is known binds the formal of that role.
-    `table`: normalised actual source -> formal name; actuals `<const_recv>.X` bind formal X
-    (case-insensitive)."""
-    b = bind_call(call, formals)
+    `table`: normalised actual source -> formal name; actuals `<const_recv>.X` bind formal X (case-insensitive).
+    `callee` (optional): the FunctionDef `formals` was read from; when absent it is looked up among the loaded modules.
+    -> (number of role obligations, formals without an actual), or None when the binding was not followed / does not fit."""
     name = src(call.func)
-    if b is None:
-        chk.ob("E2-arity", call, f"{name}(...)", False, f"argument list does not fit the signature ({len(call.args)} "
-               f"positional for {len(formals)} parameters)", file=rel, func=func)
-        return
+    callees = [callee] if callee is not None else _find_callee(chk, call, formals)
+    status, b, why = bind_status(call, formals, callees[0] if callees else None)
+    for other in callees[1:]:
+        s2, _, w2 = bind_status(call, formals, other)
+        if s2 != status:
+            status, b, why = "unknown", None, f"the definitions of `{other.name}` disagree on how they take arguments ({w2 or why})"
+    if status == "unknown":
+        chk.ob("E2-argument-role", call, f"{name}(...)", None, why, file=rel, func=func)
+        return None
+    if status == "misfit":
+        # AUDIT: "the call raises TypeError" - assumptions (1) all actuals written out, (2) `formals` is the complete signature: both
+        # checked by bind_status on the callee's definition; when no definition with this parameter list is among the loaded modules
+        # (2) cannot be established (the excess argument may go to *args, the keyword may be keyword-only) -> UNDECIDED
+        ok = False if callees else None
+        chk.ob("E2-arity", call, f"{name}(...)", ok, f"argument list does not fit the signature ({len(call.args)} "
+               f"positional for {len(formals)} parameters)" +
+               ("" if callees else f": {why}; but no definition of `{name}` with these parameters was found, so that the list is its complete "
+                "signature (no *args / keyword-only parameters) is not established"), file=rel, func=func)
+        return None
     missing = [f for f in formals if f not in b]
+    actual_of = {f: src(a) for f, a in b.items()}
+    lower = {f.lower(): f for f in formals}
     n = 0
     for f, a in b.items():
-        s = src(a)
+        s = actual_of[f]
         want = None
         if const_recv and s.startswith(const_recv + "."):
-            want = s[len(const_recv) + 1:]
-            ok = want.lower() == f.lower()
+            x = s[len(const_recv) + 1:]
+            want = lower.get(x.lower())
+            if want is None:
+                # AUDIT: the constant's role is the parameter named like it; the callee has none -> its position cannot be judged by name
+                chk.ob("E2-argument-role", a, f"{name}: constant `{x}` <- {s}", None,
+                       f"the callee has no parameter named like the constant `{x}` (parameters {list(formals)}): its position cannot be judged "
+                       "by name", file=rel, func=func)
+                continue
         elif s in table:
             want = table[s]
-            ok = want == f
+            if want not in formals:
+                # AUDIT: roles are identified with parameter NAMES; a role name the signature does not have (parameter renamed) decides nothing
+                chk.ob("E2-argument-role", a, f"{name}: role `{want}` <- {s}", None,
+                       f"the callee has no parameter named `{want}` (parameters {list(formals)}): roles are identified by parameter names, "
+                       "so the position of this actual cannot be judged", file=rel, func=func)
+                continue
         else:
             continue
+        ok = want == f
         n += 1
+        if not ok and actual_of.get(want) == s:
+            # AUDIT: "wrong position" means the actual sits in ANOTHER parameter's place; when the parameter of its role receives the very
+            # same expression as well, this binding is an additional use of the value (a second view of the same storage), not an exchange
+            chk.ob("E2-argument-role", a, f"{name}: {f} <- {s}", None,
+                   f"actual `{s}` has role `{want}`, binds parameter `{want}` and parameter `{f}` as well: whether `{f}` may receive the same "
+                   "value is not decided", file=rel, func=func)
+            continue
+        # AUDIT (VIOLATED): the actual `s` has role `want` (the caller's table / the constant's name), `want` IS a parameter of the callee
+        # (checked above), the binding was established by bind_status (all actuals written out, complete signature) and `s` binds `f` != `want`
         chk.ob("E2-argument-role", a, f"{name}: {f} <- {s}", ok,
                f"actual `{s}` has role `{want}` and binds parameter `{f}`" +
                ("" if ok else " - arguments are in the wrong position"), file=rel, func=func)
@@ -60,10 +188,43 @@ def _stem(name):
     return None, name
 
 
+def _flag_test(test, arms, params):
+    """`flag`, `not flag`, `flag is True`, `flag == True`, `flag is False`, `flag == False`, `flag is not True` ... -> (flag, (arm when set,
+    arm when unset)) or (None, arms)"""
+    for _ in range(4):
+        if isinstance(test, ast.UnaryOp) and isinstance(test.op, ast.Not):
+            test, arms = test.operand, (arms[1], arms[0])
+            continue
+        if isinstance(test, ast.Compare) and len(test.ops) == 1 and isinstance(test.comparators[0], ast.Constant) \
+                and isinstance(test.comparators[0].value, bool) and isinstance(test.ops[0], (ast.Is, ast.Eq, ast.IsNot, ast.NotEq)):
+            flip = (test.comparators[0].value is False) != isinstance(test.ops[0], (ast.IsNot, ast.NotEq))
+            test, arms = test.left, ((arms[1], arms[0]) if flip else arms)
+            continue
+        if isinstance(test, ast.Call) and isinstance(test.func, ast.Name) and test.func.id == "bool" and len(test.args) == 1 and not test.keywords:
+            test = test.args[0]
+            continue
+        break
+    if isinstance(test, ast.Name) and test.id in params:
+        return test.id, arms
+    return None, arms
+
+
 def check_wrapper_dispatch(chk, mod, wrapper: str, general: str):
     """`if cubic_uniform_splines: general(args..., cu_X, cu_Y) else: general(args..., nu_X, nu_Y)`:
     both arms call the same general routine with identical arguments except a matched cu_/nu_ pair,
-    and the forwarded arguments bind the general routine's formals of the same name."""
+    and the forwarded arguments bind the general routine's formals of the same name.
+
+    Three-valued.  HOLDS: the wrapper is one if/else on its flag parameter (or its negation), both arms are one call of the general
+    routine with the same arguments except the evaluator arguments, which are the cu_ / nu_ members of one pair (cu_ on the arm taken
+    when the flag is set), every forwarded parameter binds the general routine's parameter of the same name.
+    VIOLATED only for recognised wrong forms, each true of the code as written:
+      - an arm's call does not fit the signature of the general routine (TypeError when that arm runs);
+      - the arms hand different parameters of the wrapper over for the same parameter (both families must get the same data);
+      - the two evaluators of one position are not the cu_/nu_ pair of one stem, or the cu_ member sits on the arm of the general basis;
+      - a forwarded parameter `p` binds a parameter of another name although the general routine HAS a parameter `p` (crossed
+        arguments; when it has none the parameter was renamed: names do not identify roles then -> UNDECIDED).
+    Any other shape (test that is not the flag or its negation, arm that is not a single call, */** arguments, a general routine with
+    *args / **kwargs / keyword-only parameters, statements next to the if that rebind what the arms read) is UNDECIDED."""
     rel = mod.rel
     fn = mod.func(wrapper)
     g = mod.func(general)
@@ -72,38 +233,106 @@ def check_wrapper_dispatch(chk, mod, wrapper: str, general: str):
     if len(ifs) != 1:
         raise AnalysisError(f"dispatch wrapper {wrapper} is not a single if/else")
     node = ifs[0]
-    okt = isinstance(node.test, ast.Name) and node.test.id in [a.arg for a in fn.args.args]
+    label = f"{wrapper} -> {general}"
+
+    def undecided(why):
+        chk.ob("E1-dispatch", node, label, None, why, file=rel, func=wrapper)
+    wparams = [a.arg for a in fn.args.args] + [a.arg for a in fn.args.kwonlyargs]
+    # AUDIT (all verdicts): the names the arms read are the wrapper's parameters as passed by the caller - nothing before the `if` rebinds
+    # a parameter or a cu_/nu_ name, and the `if` is the wrapper's only statement besides docstrings / imports / returns after it
+    for st in fn.body:
+        if st is node:
+            break
+        if isinstance(st, ast.Expr) and isinstance(st.value, ast.Constant):
+            continue
+        if isinstance(st, (ast.Import, ast.ImportFrom)):
+            continue
+        return undecided(f"`{src(st).splitlines()[0][:60]}` (line {st.lineno}) runs before the dispatch: what the arms read is not the "
+                         "wrapper's own arguments any more, not followed")
+    flag, arms = _flag_test(node.test, (node.body, node.orelse), wparams)
+    if flag is None:
+        return undecided(f"the test `{src(node.test)}` is not the flag parameter of the wrapper (or its negation): which family runs when is not followed")
     calls = []
-    for arm in (node.body, node.orelse):
-        cs = [s.value for s in arm if isinstance(s, ast.Expr) and isinstance(s.value, ast.Call)]
+    for arm in arms:
+        cs = [s.value for s in arm if isinstance(s, (ast.Expr, ast.Return)) and isinstance(s.value, ast.Call)]
         if len(cs) != 1 or len(arm) != 1:
-            chk.ob("E1-dispatch", node, wrapper, False, "an arm of the dispatch is not a single call", file=rel, func=wrapper)
-            return
+            return undecided("an arm of the dispatch is not a single call: not followed")
         calls.append(cs[0])
-    a, b = calls
     gformals = [x.arg for x in g.args.args]
-    same_callee = src(a.func) == src(b.func) == general
-    ok = okt and same_callee and len(a.args) == len(b.args) == len(gformals) and not a.keywords and not b.keywords
-    detail = []
-    if ok:
-        for k, (x, y) in enumerate(zip(a.args, b.args)):
-            sx, sy = src(x), src(y)
-            f = gformals[k]
-            if sx == sy:
-                if isinstance(x, ast.Name) and x.id != f:
-                    ok = False
-                    detail.append(f"`{sx}` is forwarded to parameter `{f}`")
-                continue
-            px, stx = _stem(sx)
-            py, sty = _stem(sy)
-            if not (px == "cu_" and py == "nu_" and stx == sty and f == stx):
-                ok = False
-                detail.append(f"arms differ at parameter `{f}`: `{sx}` vs `{sy}` (expected the cu_/nu_ pair of `{f}`)")
-    else:
-        detail.append(f"test ok={okt}, same callee={same_callee}, arities {len(a.args)}/{len(b.args)}/{len(gformals)}")
-    chk.ob("E1-dispatch", node, f"{wrapper} -> {general}", ok,
+    if any(src(c.func) != general for c in calls):
+        return undecided(f"the arms call `{src(calls[0].func)}` / `{src(calls[1].func)}`, not both `{general}`: not followed")
+    stats = [bind_status(c, gformals, g) for c in calls]
+    if any(s[0] == "unknown" for s in stats):
+        return undecided(next(s[2] for s in stats if s[0] == "unknown"))
+    if any(s[0] == "misfit" for s in stats):
+        # AUDIT: TypeError of the arm - all actuals written out and complete signature, both checked by bind_status on `g`
+        chk.ob("E1-dispatch", node, label, False,
+               f"a call of `{general}` does not fit its signature ({next(s[2] for s in stats if s[0] == 'misfit')}; "
+               f"{len(calls[0].args)}/{len(calls[1].args)} positional arguments, {len(gformals)} parameters {gformals}): TypeError when this arm runs",
+               file=rel, func=wrapper)
+        return
+    a, b = stats[0][1], stats[1][1]
+    detail, unknown = [], []
+    required = set(required_formals(g))
+    if set(a) != set(b):
+        # one arm relies on a default the other overrides: whether the default is the value the other arm passes is not compared
+        unknown.append(f"the arms bind different parameters: {sorted(set(a) ^ set(b))} are given on one arm only")
+    lack = [f for f in gformals if f in required and (f not in a or f not in b)]
+    if lack:
+        # AUDIT: a required parameter (no default in `g`, complete signature) without an actual: TypeError when the arm runs
+        detail.append(f"parameters {lack} of `{general}` have no default and receive no argument on an arm: TypeError when that arm runs")
+    stems = {(_stem(n.id)[1]) for c in calls for n in ast.walk(c) if isinstance(n, ast.Name) and _stem(n.id)[0]}
+    for f in [f_ for f_ in gformals if f_ in a and f_ in b]:
+        x, y = a[f], b[f]
+        sx, sy = src(x), src(y)
+        if sx == sy:
+            if isinstance(x, ast.Name) and x.id != f and not _stem(x.id)[0]:
+                if x.id in wparams and x.id in gformals:
+                    # AUDIT: wrapper and general routine both have a parameter `x`; the wrapper's `x` is handed to another parameter
+                    detail.append(f"`{sx}` is forwarded to parameter `{f}` although `{general}` has a parameter `{sx}`: crossed arguments")
+                elif x.id in wparams:
+                    unknown.append(f"`{sx}` is forwarded to parameter `{f}`: `{general}` has no parameter `{sx}` (renamed?), roles not decided by name")
+                else:
+                    unknown.append(f"`{sx}`, which is not a parameter of the wrapper, is forwarded to parameter `{f}`: its role is not known")
+            elif isinstance(x, ast.Name) and _stem(x.id)[0] == "cu_":
+                # AUDIT: the cu_ routines assume a cubic uniform basis (C07); handed over on the arm of the general basis as well, they
+                # run on a basis they were not written for
+                detail.append(f"both arms hand `{sx}` to parameter `{f}`: the flag does not select the evaluator, the general basis is "
+                              "evaluated with the routine that assumes a cubic uniform one")
+            elif isinstance(x, ast.Name) and _stem(x.id)[0] == "nu_":
+                # the general routine is valid for every basis: no wrong value follows, only the fast path is not taken
+                unknown.append(f"both arms hand `{sx}` to parameter `{f}`: the fast path is not taken; the general evaluator is valid for both "
+                               "families, so no wrong value follows from this alone")
+            continue
+        px, stx = _stem(sx)
+        py, sty = _stem(sy)
+        if px is None and py is None:
+            if isinstance(x, ast.Name) and isinstance(y, ast.Name) and x.id in wparams and y.id in wparams:
+                detail.append(f"arms differ at parameter `{f}`: `{sx}` vs `{sy}` - the two spline families are handed different arguments of the "
+                              "wrapper for the same parameter")
+            else:
+                # family-specific derived data (e.g. a quantity read off each family's own knot layout): whether the two expressions
+                # denote the same quantity needs the layout of the data, which this rule does not model
+                unknown.append(f"arms differ at parameter `{f}`: `{sx}` vs `{sy}` are computed per family: whether both denote the same quantity "
+                               "is not decided")
+        elif not (isinstance(x, ast.Name) and isinstance(y, ast.Name)):
+            unknown.append(f"arms differ at parameter `{f}`: `{sx}` vs `{sy}` are not plain evaluator names: not followed")
+        elif px is None or py is None:
+            unknown.append(f"arms differ at parameter `{f}`: `{sx}` vs `{sy}`: one of them does not carry the cu_/nu_ prefix, its family is "
+                           "not known by name")
+        elif not (px == "cu_" and py == "nu_" and stx == sty):
+            # AUDIT: both names carry a family prefix; either the cu_ member sits on the arm of the general basis, or the two are
+            # different evaluators (different stems), or both are of one family
+            detail.append(f"arms differ at parameter `{f}`: `{sx}` (uniform-cubic arm) vs `{sy}` (general arm): expected the cu_/nu_ members of one evaluator")
+        elif f != stx:
+            if f in stems:
+                detail.append(f"the evaluator pair `{sx}`/`{sy}` binds parameter `{f}`, which is the name of another evaluator of this dispatch")
+            else:
+                unknown.append(f"the evaluator pair `{sx}`/`{sy}` binds parameter `{f}` (not named after the evaluator): role not decided by name")
+    ok = False if detail else (None if unknown else True)
+    chk.ob("E1-dispatch", node, label, ok,
            "both families get the same arguments in the same order; the evaluator pair is matched cu_/nu_ of one stem; "
-           "the fast path is taken iff the basis is cubic uniform" if ok else "; ".join(detail), file=rel, func=wrapper)
+           "the fast path is taken iff the basis is cubic uniform" if ok else "; ".join(detail + unknown), file=rel, func=wrapper)
 
 
 def dispatch_sites(fn: ast.FunctionDef):
@@ -121,40 +350,68 @@ def dispatch_sites(fn: ast.FunctionDef):
 
 
 def check_dispatch_site(chk, rel, func, node, ca, cb, sigs):
+    """three-valued.  VIOLATED for: the arms call two routines that both carry a cu_/nu_ prefix and are not the (cu_, nu_) pair of one
+    stem on the (test true, test false) arms while the test is a plain `<x>.cubic_uniform` attribute / name (not negated); argument
+    lists that, bound to the two known and agreeing signatures, give a parameter different actuals.  Everything else that is not the
+    recognised good form is UNDECIDED."""
     pa, sa = _stem(ca.func.id)
     pb, sb = _stem(cb.func.id)
     ok = pa == "cu_" and pb == "nu_" and sa == sb
-    why = []
+    bad, und = [], []
+    # AUDIT: which arm is the fast one is read off the test: only a plain name / attribute chain ending in a `cubic_uniform` name is
+    # known to be true exactly for the uniform cubic basis; negations, comparisons, conjunctions are not interpreted
+    plain_test = isinstance(node.test, (ast.Name, ast.Attribute)) and "cubic_uniform" in src(node.test).split(".")[-1]
     if not ok:
-        why.append(f"arms call `{ca.func.id}` / `{cb.func.id}`: not the cu_/nu_ pair of one routine on the (fast, general) arms")
+        msg = f"arms call `{ca.func.id}` / `{cb.func.id}`: not the cu_/nu_ pair of one routine on the (fast, general) arms"
+        (bad if (pa and pb and plain_test) else und).append(msg)
+    elif not plain_test:
+        und.append(f"the test `{src(node.test)}` is not a plain cubic_uniform flag: which arm is the fast one is not followed")
     # same statement shape (both assign to the same target or both are expression statements)
     ta = src(node.body[0].targets[0]) if isinstance(node.body[0], ast.Assign) else None
     tb = src(node.orelse[0].targets[0]) if isinstance(node.orelse[0], ast.Assign) else None
-    if ta != tb:
-        ok = False
-        why.append(f"results go to different targets `{ta}` / `{tb}`")
-    if [src(x) for x in ca.args] != [src(x) for x in cb.args] or \
-            [(k.arg, src(k.value)) for k in ca.keywords] != [(k.arg, src(k.value)) for k in cb.keywords]:
-        ok = False
-        why.append("argument lists differ between the two families")
+    if ta != tb or type(node.body[0]) is not type(node.orelse[0]):
+        # what happens to the two results afterwards is not followed
+        und.append(f"results go to different targets `{ta}` / `{tb}`")
     fa, fb = sigs.get(ca.func.id), sigs.get(cb.func.id)
-    if fa is not None and fb is not None:
-        # signatures agree (names, order, defaults)
-        if [x[0] for x in fa] != [x[0] for x in fb] or [x[1] for x in fa] != [x[1] for x in fb]:
-            ok = False
-            why.append(f"signatures of the pair differ: {fa} vs {fb}")
-    chk.ob("E1-dispatch", node, f"{ca.func.id}/{cb.func.id}", ok,
-           "matched cu_/nu_ pair, identical arguments, agreeing signatures" if ok else "; ".join(why),
+    la = [src(x) for x in ca.args], [(k.arg, src(k.value)) for k in ca.keywords]
+    lb = [src(x) for x in cb.args], [(k.arg, src(k.value)) for k in cb.keywords]
+    sig_ok = fa is not None and fb is not None
+    if sig_ok and ([x[0] for x in fa] != [x[0] for x in fb] or [x[1] for x in fa] != [x[1] for x in fb]):
+        # AUDIT: parameter names / defaults of the two definitions differ: a renamed parameter is no defect by itself
+        und.append(f"signatures of the pair differ: {fa} vs {fb}")
+        sig_ok = False
+    if la != lb:
+        # AUDIT: "the families get different arguments" is decided parameter by parameter through the (agreeing, complete) signatures;
+        # positional on one arm and keyword on the other is the same call
+        sa_, ba, _ = bind_status(ca, [x[0] for x in fa], None) if sig_ok else ("unknown", None, "")
+        sb_, bb, _ = bind_status(cb, [x[0] for x in fb], None) if sig_ok else ("unknown", None, "")
+        if sa_ == sb_ == "bound":
+            diff = [f for f in set(ba) | set(bb) if f not in ba or f not in bb or src(ba[f]) != src(bb[f])]
+            if diff:
+                (bad if all(f in ba and f in bb for f in diff) else und).append(
+                    f"argument lists differ between the two families at parameters {sorted(diff)}")
+        else:
+            und.append("argument lists of the two arms are written differently and cannot be matched to the signatures")
+    verdict = False if bad else (None if und else True)
+    chk.ob("E1-dispatch", node, f"{ca.func.id}/{cb.func.id}", verdict,
+           "matched cu_/nu_ pair, identical arguments, agreeing signatures" if verdict else "; ".join(bad + und),
            file=rel, func=func)
 
 
 def signature(fn: ast.FunctionDef):
-    args = fn.args.args
-    nd = len(fn.args.defaults)
+    """-> [(parameter, default source or None)] of the plain parameters; None when the function also takes arguments in ways this list
+    cannot express (*args, **kwargs, keyword-only, positional-only parameters)
+    AUDIT: callers bind call sites against this list and compare the lists of sibling routines; an incomplete list would turn a
+    legal keyword / extra positional argument into a 'does not fit' -> such a signature is reported as not available."""
+    a = fn.args
+    if a.vararg is not None or a.kwarg is not None or a.kwonlyargs or getattr(a, "posonlyargs", None):
+        return None
+    args = a.args
+    nd = len(a.defaults)
     out = []
-    for i, a in enumerate(args):
+    for i, x in enumerate(args):
         d = None
         if i >= len(args) - nd:
-            d = src(fn.args.defaults[i - (len(args) - nd)])
-        out.append((a.arg, d))
+            d = src(a.defaults[i - (len(args) - nd)])
+        out.append((x.arg, d))
     return out
